@@ -55,3 +55,8 @@ Theorem rejected_no_effect : forall e st d x,
   result_of (run st (deliver e d)) = Err x ->
   puts_of (effects_of (run st (deliver e d))) = [] /\ store_of (run st (deliver e d)) = st.
 Proof. exact rejected_no_effect_lemma. Qed.
+
+(* the contract is queried at the mined ("latest") block: a payment that is only pending is not seen *)
+Theorem payment_sees_latest_only : forall latest pending pending',
+  chain_queried latest pending = latest /\ chain_queried latest pending = chain_queried latest pending'.
+Proof. exact payment_sees_latest_only_lemma. Qed.
